@@ -525,6 +525,19 @@ impl Drop for Scratch {
     }
 }
 
+/// Remove every scratch directory this process created (thread-local ones are not dropped at exit).
+pub fn cleanup_scratch() {
+    let pid = format!("-{}-", std::process::id());
+    if let Ok(rd) = std::fs::read_dir(std::env::temp_dir()) {
+        for e in rd.flatten() {
+            let n = e.file_name().to_string_lossy().to_string();
+            if n.starts_with("ommx-mc-") && n.contains(&pid) {
+                let _ = std::fs::remove_dir_all(e.path());
+            }
+        }
+    }
+}
+
 /// All permutations of 0..n (n small).
 pub fn permutations(n: usize) -> Vec<Vec<usize>> {
     fn rec(cur: &mut Vec<usize>, used: &mut Vec<bool>, n: usize, out: &mut Vec<Vec<usize>>) {
